@@ -30,6 +30,17 @@ def digit_facts(text):
     return {(f"{text}.isdigit()", True), (f"{text}.isdecimal()", True)}
 
 
+def digits_guarded(g, nid, root, x, text, names):
+    """`text` is known to be ASCII decimal digits where x is evaluated: isdecimal(), or isdigit()
+    together with isascii() (isdigit alone admits superscript digits, which int() rejects)."""
+    ok, w = guarded(g, nid, root, x, {(f"{text}.isdecimal()", True)}, names)
+    if ok:
+        return True, None
+    ok1, w1 = guarded(g, nid, root, x, {(f"{text}.isdigit()", True)}, names)
+    ok2, w2 = guarded(g, nid, root, x, {(f"{text}.isascii()", True)}, names)
+    return (ok1 and ok2), (w1 or w2)
+
+
 def handler_catches(node, fn, names):
     """Is ``node`` inside a try body whose handlers catch one of ``names`` (or everything)
     without re-raising?"""
@@ -83,6 +94,7 @@ def run(ctx):
     fn, g = dv.fn, dv.cfg
     R1, R2, R3, R4, R4B, R5 = ("C10.escape", "C10.progress", "C10.reader-cannot-wedge", "C10.checksum-gates-return",
                                "C10.bodylength-gates-return", "C10.malformed-consumes-all")
+    R6 = "C10.wait-only-for-open-frame"
     ctx.rule(R1, "with silent=True no exception can leave Codec.decode: every int()/unpack/index/dict lookup/raising callee/"
                  "group-context attribute access on attacker-controlled text has a dominating guard or an enclosing handler")
     ctx.rule(R2, "the consumed length is built from the frame start, non-negative frame lengths and the buffer length; a "
@@ -91,6 +103,7 @@ def run(ctx):
     ctx.rule(R4, "a message is returned only under a flag that is set solely where the parsed CheckSum equals sum(ord)+SOH mod 256 over the fields before it")
     ctx.rule(R4B, "a message is returned only when a comparison ties the parsed BodyLength to the actual position of the CheckSum field")
     ctx.rule(R5, "a malformed-frame verdict after the frame start was found does not report the whole buffer as consumed")
+    ctx.rule(R6, "a path that consumes nothing of the candidate frame (wait for more bytes) is taken only while the frame is not delimited by its trailer or by the next frame")
     ctx.assumptions += ["decode is analysed with silent=True (assert silent, ... cannot fail)",
                         "str/bytes methods find/split/join/isdigit/decode('latin-1') and logging calls do not raise (trusted catalogue)",
                         "the invariant 'group stack non-empty <=> current context is a group context' is the decoder's own discriminator; its maintenance is C01 rule 8"]
@@ -163,18 +176,11 @@ def run(ctx):
     bodylength_rule(ctx, R4B, dv)
 
     # ------------------------------------------------------------------ rule 5
-    start_defs = [n.id for n in g.nodes if n.kind == "stmt" and isinstance(n.ast, ast.Assign)
-                  and isinstance(n.ast.value, ast.Call) and isinstance(n.ast.value.func, ast.Attribute)
-                  and n.ast.value.func.attr in ("find", "index") and unparse(n.ast.value.func.value) == dv.buf]
-    if not start_defs:
-        raise AnalysisError("decode: the frame-start search on the buffer was not found")
-    marker_found_edges = set()
-    for n in g.nodes:
-        if n.kind == "test":
-            for lab in ("true", "false"):
-                fs = edge_facts(g, n.id, lab)
-                if any(re.fullmatch(r"\w+ != -1", a) and t for a, t in fs) or any(re.fullmatch(r"\w+ (>=|>) (0|-1)", a) and t for a, t in fs):
-                    marker_found_edges.add((n.id, lab))
+    sp = getattr(dv.start_search()[0], "_parent", None)
+    if not (isinstance(sp, ast.Assign) and isinstance(sp.targets[0], ast.Name)):
+        raise AnalysisError("decode: the frame-start search is not assigned to a local")
+    sname = sp.targets[0].id
+    marker_found_edges = fact_edges(g, {(f"{sname} != -1", True), (f"{sname} >= 0", True), (f"{sname} > -1", True)})
     for r in dv.returns:
         if dv.is_message_return(r):
             continue
@@ -188,6 +194,55 @@ def run(ctx):
                      "a malformed-frame verdict reports len(buffer) as consumed: every valid frame already queued behind the bad one is discarded",
                      loc(r.ast), sample={"rule": R5, "return_line": r.line, "class": c})
     ctx.floor(R5, 5)
+
+    # ------------------------------------------------------------------ rule 6
+    from sa.decoder import delimited_flags
+    flags = delimited_flags(dv)
+    n6 = 0
+    for r in dv.returns:
+        if dv.is_message_return(r) or classes[r.id] != "KEEP":
+            continue
+        if unprotected_path(g, r.id, [], marker_found_edges, exc=False) is not None:
+            continue
+        n6 += 1
+        fs = set()
+        for t, lab in g.guards(r.id, exc=False):
+            fs |= facts(t, lab == "true")
+        ok = any((f, False) in fs for f in flags)
+        ctx.instance(R6, f"Codec.decode[{guard_label(g, r.id, flags)}]", ok,
+                     "this path consumes nothing ('wait for more bytes') although the frame may already be delimited by its own trailer or by the next "
+                     "frame: nothing more will arrive for it, so the same bytes are re-examined on every read and every frame behind them is blocked for good",
+                     loc(r.ast), sample={"rule": R6, "return_line": r.line, "delimited_flags": sorted(flags)})
+    # a delimited frame consumes its own extent, never a BodyLength-derived count
+    augs = [n for n in g.nodes if n.kind == "stmt" and isinstance(n.ast, ast.AugAssign) and "BODYLEN" in dv.sources(n.ast.value, n.id)]
+    for a in augs:
+        lv = unparse(a.ast.target)
+        fixes = []
+        for n in g.nodes:
+            if n.kind == "stmt" and isinstance(n.ast, ast.Assign) and unparse(n.ast.targets[0]) == lv and n.id != a.id:
+                src = dv.sources(n.ast.value, n.id)
+                fs = set()
+                for t, lab in g.guards(n.id, exc=False):
+                    fs |= facts(t, lab == "true")
+                if "BODYLEN" not in src and "START" in src and any((f, True) in fs for f in flags):
+                    fixes.append(n.id)
+        open_edges = fact_edges(g, {(f, False) for f in flags})
+        bad = None
+        for r in dv.returns:
+            if not g.reaches(a.id, r.id, exc=False):
+                continue
+            if lv not in {x.id for x in ast.walk(r.ast.value.elts[1]) if isinstance(x, ast.Name)}:
+                continue
+            w = unprotected_path(g, r.id, [a.id], open_edges, fixes, exc=False)
+            if w is not None and w[0] == a.id:
+                bad = (r, w)
+                break
+        ctx.instance(R5, "Codec.decode[delimited frame consumes its own extent]", bad is None,
+                     f"after `{short(a.ast)}` a return reports the BodyLength-derived length although the frame is delimited in the buffer: a too large "
+                     "BodyLength (one corrupted digit) makes the decoder swallow bytes of the following frame", loc(a.ast),
+                     [repr(g.nodes[i]) for i in (bad[1] if bad else [])][-8:])
+    if n6 < 2:
+        raise AnalysisError(f"decode: only {n6} wait-for-more return paths found")
 
 
 # ---------------------------------------------------------------------------- helpers
@@ -244,7 +299,7 @@ def check_site(ctx, repo, res, dv, node, root, x, report, ctx_only, stack_vars):
             return 0
         if handler_catches(x, fn, {"ValueError"}):
             return 1
-        ok, w = guarded(g, node.id, root, x, digit_facts(t), names)
+        ok, w = digits_guarded(g, node.id, root, x, t, names)
         if not ok:
             report(x, f"int({t})", f"int({t}) on frame text without a dominating {t}.isdigit() guard or ValueError handler: raises on non-numeric text", w)
         return 1
@@ -446,7 +501,7 @@ def check_set(dv, node, root, x, report, fresh):
         return 1
     tag = unparse(x.args[0])
     tnames = [n.id for n in ast.walk(x.args[0]) if isinstance(n, ast.Name)]
-    ok, w = guarded(g, node.id, root, x, digit_facts(tag), tnames)
+    ok, w = digits_guarded(g, node.id, root, x, tag, tnames)
     if not ok and not handler_catches(x, fn, {"FIXMessageError"}):
         report(x, f"set[{recv}:tag-not-numeric]", f"`{short(x)}`: FIXContainer.set raises FIXMessageError for a non-integer tag and `{tag}` has no dominating "
                                                 f"{tag}.isdigit() guard", w)
@@ -515,11 +570,7 @@ def first_field_lemma(dv, split_call, node, root, x):
         return False
     m = recv.value.id
     # the buffer search
-    marker = None
-    start = None
-    for call, rtxt, lit in dv.searches():
-        if rtxt == dv.buf:
-            marker, start = lit, call
+    start, _r, marker = dv.start_search()
     if marker is None or sep is None:
         return False
     sepb = sep.encode() if isinstance(marker, bytes) and isinstance(sep, str) else sep
@@ -673,41 +724,81 @@ def reader_handler_advances(rv):
 def checksum_rule(ctx, R4, dv):
     g, fn = dv.cfg, dv.fn
     from sa.guards import derivation
+
+    def int_calls(expr_text):
+        """int(X) calls the expression (or the locals it names) is computed from."""
+        out = []
+        try:
+            e = ast.parse(expr_text, mode="eval").body
+        except SyntaxError:
+            return out
+        todo = [e]
+        for x in ast.walk(e):
+            if isinstance(x, ast.Name):
+                todo += derivation(fn, x.id, 0).get(x.id, [])
+        for t in todo:
+            for c in ast.walk(t):
+                if isinstance(c, ast.Call) and isinstance(c.func, ast.Name) and c.func.id == "int" and c.args:
+                    out.append(unparse(c.args[0]))
+        return out
+
+    def shape_ok(expr_text):
+        try:
+            e = ast.parse(expr_text, mode="eval").body
+        except SyntaxError:
+            return False
+        if isinstance(e, ast.Name):
+            vals = derivation(fn, e.id, 0).get(e.id, [])
+            return bool(vals) and all(checksum_shape(dv, v) for v in vals)
+        return checksum_shape(dv, e)
+
     for r in dv.returns:
         if not dv.is_message_return(r):
             continue
         gs = g.guards(r.id, exc=False)
         flags = [unparse(t) for t, lab in gs if isinstance(t, ast.Name) and lab == "true"]
-        if not flags:
-            ctx.instance(R4, "Codec.decode[message return under the checksum flag]", False,
-                         "the message-returning path is not dominated by a checksum flag test", loc(r.ast))
-            continue
-        ok_all = False
+        done = False
         for flag in flags:
             dn = [n for n in g.nodes if n.kind == "stmt" and flag in stores(n)]
             trues = [n for n in dn if isinstance(n.ast.value, ast.Constant) and n.ast.value.value is True]
             others = [n for n in dn if not (isinstance(n.ast.value, ast.Constant) and n.ast.value.value in (True, False))]
             if not trues or others:
                 continue
-            ok = True
-            why = ""
+            done = True
+            ok, why = True, ""
             for tnode in trues:
-                gs2 = g.guards(tnode.id, exc=False)
                 eq = None
-                for t, lab in gs2:
+                for t, lab in g.guards(tnode.id, exc=False):
                     for atom, tv in facts(t, lab == "true"):
                         m = re.fullmatch(r"(.+) == (.+)", atom)
-                        if m and tv and ("int(" in atom):
-                            eq = (m.group(1), m.group(2), t)
+                        if m and tv:
+                            a, b = m.group(1).strip(), m.group(2).strip()
+                            for parsed, comp in ((a, b), (b, a)):
+                                if int_calls(parsed) and shape_ok(comp):
+                                    eq = (parsed, comp, t)
                 if eq is None:
-                    ok, why = False, f"`{flag} = True` at line {tnode.line} is not dominated by an equality test between the computed and the parsed CheckSum"
+                    ok, why = False, (f"`{flag} = True` at line {tnode.line} is not dominated by an equality test between int(<CheckSum text>) and "
+                                      "(sum(ord(c) for c in <fields before CheckSum joined by SOH>) + 1) % 256")
                     break
-                comp = eq[0] if "int(" in eq[1] else eq[1]
-                dvals = derivation(fn, comp.strip(), 0).get(comp.strip(), [])
-                if not dvals or not all(checksum_shape(dv, v) for v in dvals):
-                    ok, why = False, f"the computed checksum `{comp}` is not (sum(ord(c) for c in <fields before CheckSum joined by SOH>) + SOH) % 256"
-                    break
-            # initial value False dominates the loop
+                # the acceptor of the CheckSum text is lexically strict: exactly three ASCII digits
+                calls = [c for c in ast.walk(eq[2]) if isinstance(c, ast.Call) and isinstance(c.func, ast.Name) and c.func.id == "int" and c.args]
+                for x in ast.walk(eq[2]):
+                    if isinstance(x, ast.Name):
+                        for v in derivation(fn, x.id, 0).get(x.id, []):
+                            calls += [c for c in ast.walk(v) if isinstance(c, ast.Call) and isinstance(c.func, ast.Name) and c.func.id == "int" and c.args]
+                for c in calls:
+                    for nid in g.ids_of(c):
+                        n = g.nodes[nid]
+                        root = node_exprs(n)[0] if node_exprs(n) else None
+                        if root is None:
+                            continue
+                        t_ = unparse(c.args[0])
+                        nm = [y.id for y in ast.walk(c.args[0]) if isinstance(y, ast.Name)]
+                        strict, _w = digits_guarded(g, nid, root, c, t_, nm)
+                        three, _w2 = guarded(g, nid, root, c, {(f"len({t_}) == 3", True)}, nm)
+                        if not (strict and three) and ok:
+                            ok, why = False, (f"int({t_}) parses the CheckSum text without a dominating 'exactly three ASCII digits' guard: int() also accepts "
+                                              "signs, blanks, '_' and extra leading zeros, so a byte inserted into the CheckSum field still yields the right number")
             dom = g.dominators(exc=False)
             falses = [n.id for n in dn if isinstance(n.ast.value, ast.Constant) and n.ast.value.value is False]
             init_false = any(all(f in dom.get(t.id, ()) for t in trues) and f in dom.get(r.id, ()) for f in falses)
@@ -716,8 +807,7 @@ def checksum_rule(ctx, R4, dv):
             ctx.instance(R4, f"Codec.decode[{flag} set only on checksum equality]", ok,
                          why + ": a frame whose bytes do not match its CheckSum can be returned as a message", loc(r.ast),
                          sample={"rule": R4, "flag": flag, "true_assignments": [n.line for n in trues]})
-            ok_all = True
-        if not ok_all:
+        if not done:
             ctx.instance(R4, "Codec.decode[message return under the checksum flag]", False,
                          "no boolean flag with constant assignments gates the message return", loc(r.ast))
     ctx.floor(R4, 1)
@@ -760,9 +850,9 @@ def bodylength_rule(ctx, R4B, dv):
                      "(e.g. an inserted NUL byte) is returned as a message", loc(r.ast))
 
 
-def guard_label(g, nid):
+def guard_label(g, nid, ignore=()):
     """Name a return path by the innermost branch condition that leads to it."""
-    gs = g.guards(nid, exc=False)
+    gs = [(t, lab) for t, lab in g.guards(nid, exc=False) if not (isinstance(t, ast.Name) and t.id in ignore)]
     if not gs:
         return "unconditional"
     # innermost = the dominating test closest to the node (largest line number below the node)
